@@ -215,6 +215,7 @@ pub struct IntCase {
     digits: String, // without prefix
     radix: u32,
     suffix: String,
+    upper_prefix: bool, // 0X instead of 0x
 }
 
 const INT_SUFFIX: &[&str] = &["", "", "u", "U", "l", "L", "ul", "UL", "lu", "LU", "uL", "Ul", "lU", "Lu"];
@@ -232,7 +233,7 @@ fn int_strategy() -> impl Strategy<Value = IntCase> {
         1 => (any::<u64>(), 0u32..20).prop_map(|(v, s)| (v as u128) << s),
         1 => (any::<u128>(), 40u32..128).prop_map(|(v, s)| v >> s),
     ];
-    (value, 0u8..3, any::<u16>(), any::<bool>(), 0usize..3).prop_map(|(v, radix, suf, upper, lead_zero)| {
+    (value, 0u8..3, any::<u16>(), any::<bool>(), 0usize..3, 0u8..4).prop_map(|(v, radix, suf, upper, lead_zero, upfx)| {
         let (radix, mut digits) = match radix {
             0 => (10, v.to_string()),
             1 => (16, if upper { format!("{:X}", v) } else { format!("{:x}", v) }),
@@ -247,21 +248,21 @@ fn int_strategy() -> impl Strategy<Value = IntCase> {
             }
         }
         digits.truncate(25);
-        IntCase { digits, radix, suffix: pick(INT_SUFFIX, suf).to_string() }
+        IntCase { digits, radix, suffix: pick(INT_SUFFIX, suf).to_string(), upper_prefix: radix == 16 && upfx == 0 }
     })
 }
 
 fn int_text(c: &IntCase) -> String {
     match c.radix {
-        16 => format!("0x{}{}", c.digits, c.suffix),
+        16 => format!("{}{}{}", if c.upper_prefix { "0X" } else { "0x" }, c.digits, c.suffix),
         8 => format!("0{}{}", c.digits, c.suffix),
         _ => format!("{}{}", c.digits, c.suffix),
     }
 }
 
-fn check_int(digits: &str, radix: u32, suffix: &str) -> Verdict {
+fn check_int(digits: &str, radix: u32, suffix: &str, upper_prefix: bool) -> Verdict {
     let text = match radix {
-        16 => format!("0x{}{}", digits, suffix),
+        16 => format!("{}{}{}", if upper_prefix { "0X" } else { "0x" }, digits, suffix),
         8 => format!("0{}{}", digits, suffix),
         _ => format!("{}{}", digits, suffix),
     };
@@ -280,6 +281,9 @@ fn check_int(digits: &str, radix: u32, suffix: &str) -> Verdict {
         _ => "u64",
     };
     let mut labels = vec![format!("int_radix{}_{}", radix, kind)];
+    if upper_prefix && radix == 16 {
+        labels.push("int_upper_case_hex_prefix".into());
+    }
     match r {
         Err(e) => {
             if fits {
@@ -569,7 +573,7 @@ pub fn check_record(rec: &Value) -> Verdict {
             let exp: Option<Vec<String>> = rec["expect"].as_array().map(|a| a.iter().filter_map(|s| s.as_str().map(String::from)).collect());
             check_tiling(text, exp.as_deref())
         }
-        Some("int") => check_int(rec["digits"].as_str().unwrap_or("0"), rec["radix"].as_u64().unwrap_or(10) as u32, rec["suffix"].as_str().unwrap_or("")),
+        Some("int") => check_int(rec["digits"].as_str().unwrap_or("0"), rec["radix"].as_u64().unwrap_or(10) as u32, rec["suffix"].as_str().unwrap_or(""), rec["upper_prefix"].as_bool().unwrap_or(false)),
         Some("float") => check_float(rec["body"].as_str().unwrap_or("0.0"), rec["suffix"].as_str().unwrap_or("")),
         Some("survival") => check_survival(rec["lit_kind"].as_str().unwrap_or("f"), rec["body"].as_str().unwrap_or("0.0")),
         _ => Verdict::Skip("unknown record kind".into()),
@@ -577,10 +581,10 @@ pub fn check_record(rec: &Value) -> Verdict {
 }
 
 pub fn run(ctx: &mut Ctx) {
-    ctx.rule = "(a) texts built from every token kind (identifiers incl. keyword look-alikes, all punctuators, strings, numbers) with spaces/tabs/LF/CRLF/line and block comments/backslash splices between them, with and without separators and final newline; oracle = spans contiguous, ordered, start 0, end len, slices concatenate to the input, separated pieces come back as exactly one token each, error positions within [0,len]; non-trivial = >= 12 tokens and >= 3 trivia kinds. (b) decimal/hex/octal integer spellings up to 25 digits x every suffix, biased to 2^31, 2^32, 2^63, 2^64 +- 1; exact value via u128 or rejection when >= 2^64; non-trivial = value > 999 or non-decimal. (c) decimal float spellings with up to 20 significant digits, exponents in [-330,310], forms 1. 1.5 1e5 1.5e-5, every suffix; oracle = bits of Rust's correctly rounded str::parse::<f64> (narrowed once with `as f32` for f/h); non-trivial = more than 3 significant digits. (d) survival: the literal is compiled inside `T f() { return <lit>; }` to DirectX HLSL and the emitted literal, re-read with Rust's parser in the emitted type, must have the same value; u-suffixed integers are drawn up to 2^64 (biased to 2^32 +- 16): beyond 32 bits the only other allowed outcome is rejection. Distinct = hash of the input text.".into();
+    ctx.rule = "(a) texts built from every token kind (identifiers incl. keyword look-alikes, all punctuators, strings, numbers) with spaces/tabs/LF/CRLF/line and block comments/backslash splices between them, with and without separators and final newline; oracle = spans contiguous, ordered, start 0, end len, slices concatenate to the input, separated pieces come back as exactly one token each, error positions within [0,len]; non-trivial = >= 12 tokens and >= 3 trivia kinds. (b) decimal/hex (0x and 0X)/octal integer spellings up to 25 digits x every suffix, biased to 2^31, 2^32, 2^63, 2^64 +- 1; exact value via u128 or rejection when >= 2^64; non-trivial = value > 999 or non-decimal. (c) decimal float spellings with up to 20 significant digits, exponents in [-330,310], forms 1. 1.5 1e5 1.5e-5, every suffix; oracle = bits of Rust's correctly rounded str::parse::<f64> (narrowed once with `as f32` for f/h); non-trivial = more than 3 significant digits. (d) survival: the literal is compiled inside `T f() { return <lit>; }` to DirectX HLSL and the emitted literal, re-read with Rust's parser in the emitted type, must have the same value; u-suffixed integers are drawn up to 2^64 (biased to 2^32 +- 16): beyond 32 bits the only other allowed outcome is rejection. Distinct = hash of the input text.".into();
     ctx.assumptions.push("trusted base: Rust's str::parse::<f64>/<f32> are correctly rounded".into());
     ctx.assumptions.push("L-suffixed integer values in [2^63,2^64) are outside the checked domain (the property does not say signed or unsigned)".into());
-    ctx.assumptions.push("0X (upper-case prefix) and decimal spellings with a leading zero followed by 8/9 are not generated".into());
+    ctx.assumptions.push("decimal spellings with a leading zero followed by 8/9 (invalid octal in C) are not generated".into());
     if !ctx.replay_tier(&check_record) {
         return;
     }
@@ -599,7 +603,7 @@ pub fn run(ctx: &mut Ctx) {
         "integer_spellings",
         ctx.tier.pick(300_000, 6_000_000),
         int_strategy,
-        |c: &IntCase| json!({"kind": "int", "digits": c.digits, "radix": c.radix, "suffix": c.suffix, "text": int_text(c)}),
+        |c: &IntCase| json!({"kind": "int", "digits": c.digits, "radix": c.radix, "suffix": c.suffix, "upper_prefix": c.upper_prefix, "text": int_text(c)}),
         check_record,
     );
     ctx.run_prop(
@@ -635,7 +639,7 @@ pub fn run(ctx: &mut Ctx) {
         |(k, body): &(String, String)| json!({"kind": "survival", "lit_kind": k, "body": body}),
         check_record,
     );
-    for l in ["soup_separated", "soup_adjacent", "has_splice", "has_crlf", "int_too_large_rejected", "float_denormal", "survival_f", "survival_L", "survival_u", "survival_u_beyond_32_bits_rejected"] {
+    for l in ["soup_separated", "soup_adjacent", "has_splice", "has_crlf", "int_too_large_rejected", "int_upper_case_hex_prefix", "float_denormal", "survival_f", "survival_L", "survival_u", "survival_u_beyond_32_bits_rejected"] {
         ctx.require_label(l, 5);
     }
     if ctx.tier == Tier::Thorough && ctx.failures.is_empty() {
